@@ -6,7 +6,7 @@ import sympy as sp
 import z3
 
 from pyvc import loader, symx
-from pyvc.core import Refuted
+from pyvc.core import Refuted, real_self
 from pyvc.npx import X, exact, val, vals, xarr
 from pyvc.symx import Explorer, zv
 
@@ -59,7 +59,7 @@ def _chains(chk):
         try:
             pipe = _Obj(get_lie_expansions=lambda inverse, tol: log.append(("get_lie_expansions", (inverse,), {"tol": tol})) or
                         ("EXP", inverse))
-            stub = _Obj(_point="POINT", _mix_pairs=(1, 2), pipeline=pipe, hamsys=_Obj(clmo="CLMO", clmo_H="CLMO"),
+            stub = real_self(S, _point="POINT", _mix_pairs=(1, 2), pipeline=pipe, hamsys=_Obj(clmo="CLMO", clmo_H="CLMO"),
                         _local2synodic=lambda p, c, tol: log.append(("_local2synodic", (p, c), {})) or "SYN",
                         _synodic2local=lambda p, s, tol: log.append(("_synodic2local", (p, tuple(s)), {})) or ("out:_synodic2local", 0))
             stub._restrict_to_center_manifold = lambda c: log.append(("_restrict", (c,), {})) or _np.array([10, 11, 12, 13, 14, 15.0])
@@ -115,6 +115,45 @@ def _chains(chk):
     chk.obl("synodic->CM chain mirrors the forward chain: synodic->local; local->modal; complexify; Lie expansion "
             "inverse=True; realify; slots(1,4,2,5)->(q2,p2,q3,p3)", "K2 chain wiring",
             [SC + ":_CenterManifoldDynamicsService.synodic_to_cm"], "B4 recorded callees", th_bwd)
+
+    def th_degree_history():
+        # on a real service object with its real cache: convert at degree 4, raise the degree to 6 (public setter), convert
+        # again - the Lie series used the second time must be the one of degree 6
+        import hiten.algorithms.types.services.base as sb
+        used = []
+        names = ["_solve_complex", "_evaluate_transform", "_solve_real", "_coordrealmodal2local", "_coordlocal2realmodal"]
+        saved = {n: getattr(sc, n) for n in names}
+        for n in names:
+            setattr(sc, n, (lambda n: (lambda *a, **k: (used.append(a[0]) if n == "_evaluate_transform" else None) or
+                                       _np.zeros(6, dtype=complex)))(n))
+        try:
+            def pipe(degree):
+                return _Obj(degree=degree, get_lie_expansions=lambda inverse, tol: ("EXP", degree, inverse),
+                            get_hamiltonian=lambda form: _Obj(hamsys=_Obj(clmo="CLMO%d" % degree, clmo_H="CLMO%d" % degree)))
+            svc = real_self(S, _point="POINT", _mix_pairs=(1, 2), _degree=4, _hamsys=None,
+                            _ham_pipeline=_Obj(get=lambda point, degree: pipe(degree)),
+                            _local2synodic=lambda p, c, tol: "SYN", _synodic2local=lambda p, s_, tol: _np.zeros(6))
+            sb._DynamicsServiceBase.__init__(svc, "CM")
+            for degree, call in ((4, "fwd"), (6, "fwd"), (6, "bwd"), (5, "bwd"), (5, "fwd")):
+                if svc.degree != degree:
+                    svc.degree = degree
+                del used[:]
+                if call == "fwd":
+                    S._cm_point_to_synodic_4d(svc, _np.array([1.0, 2.0, 3.0, 4.0]), 1e-14)
+                else:
+                    S.synodic_to_cm(svc, _np.array([1.0, 2, 3, 4, 5, 6]), 1e-14)
+                want = ("EXP", degree, call == "bwd")
+                if used != [want]:
+                    raise Refuted(f"after the degree history ... -> {degree} the {'synodic->CM' if call == 'bwd' else 'CM->synodic'} "
+                                  f"conversion evaluates the Lie series {used} instead of the one of the current degree {want}",
+                                  "a conversion made at an earlier degree is remembered", inputs={"degree": degree, "call": call})
+        finally:
+            for n, f in saved.items():
+                setattr(sc, n, f)
+    chk.obl("conversions after a degree change (4 -> 6 -> 5 on one object): the Lie series evaluated is the one of the CURRENT "
+            "degree and direction", "K2 postconditions (closed histories)",
+            [SC + ":_CenterManifoldDynamicsService._cm_point_to_synodic_4d", SC + ":_CenterManifoldDynamicsService.synodic_to_cm",
+             SC + ":_CenterManifoldDynamicsService.degree"], "B4 recorded callees", th_degree_history)
 
     def th_expansions():
         import hiten.algorithms.hamiltonian.pipeline as pl
